@@ -484,6 +484,28 @@ var literalMenu = []string{
 
 var varTypeMenu = []string{"Int", "Int!", "[Int]", "[Int!]", "[Int]!", "[Int!]!", "[[Int]]", "Float", "String", "ID", "Boolean", "E", "Custom", "In", "In!", "[In!]", "[In]", "In2"}
 
+var argVariants = []string{"", `id: 4`, `id: "4"`, `id: 5`, `c: 1`, `c: "1"`, `c: 1.0`, `c: true`, `c: "true"`, `c: A`, `c: "A"`, `s: "A"`, `e: A`, `e: B`, `i: 1`, `fl: 1`, `c: [1]`, `c: ["1"]`, `c: {k: 1}`, `c: {k: "1"}`}
+
+// argPairDoc: { k: g(A) k: g(B) } (shape 0) or the second field inside a fragment (shape 1).
+func argPairDoc(ai, bi, shape int) *gen.Doc {
+	mk := func(args string) *gen.Sel {
+		f := &gen.Sel{Kind: gen.SField, Alias: "k", Name: "g"}
+		if args != "" {
+			i := strings.Index(args, ": ")
+			f.Args = []gen.Arg{{Name: args[:i], Val: gen.ParseValue(args[i+2:])}}
+		}
+		return f
+	}
+	a, b := argVariants[ai], argVariants[bi]
+	op := &gen.Op{Kind: "query", Short: true, Sel: []*gen.Sel{mk(a), mk(b)}}
+	d := &gen.Doc{Ops: []*gen.Op{op}}
+	if shape == 1 {
+		op.Sel = []*gen.Sel{mk(a), spread("AF")}
+		d.Frags = []*gen.Frag{{Name: "AF", Cond: "Query", Sel: []*gen.Sel{inline("", mk(b))}}}
+	}
+	return d
+}
+
 func gArgs(s *gen.Schema) []*gen.ArgDef { return s.Type("Query").Field("g").Args }
 
 func litDoc(arg string, val gen.Value) *gen.Doc {
@@ -754,6 +776,26 @@ func run(c *core.Ctx) {
 			}
 		}
 	}
+	// (f) two fields on one response key whose argument lists differ in one respect only:
+	// the kind of a literal with one spelling (4 / "4" / 4.0), its text, the argument name, the
+	// presence of the argument; side by side, and with the second field inside a fragment
+	{
+		variants := argVariants
+		n := 0
+		for ai := range variants {
+			for bi := range variants {
+				for shape := 0; shape < 2; shape++ {
+					n++
+					if !c.Mine(n) {
+						continue
+					}
+					d := argPairDoc(ai, bi, shape)
+					v.account(nil, "argument-pairs", d.Render(), d, true, map[string]interface{}{"space": "argument-pairs", "a": ai, "b": bi, "shape": shape})
+					c.R.Transitions++
+				}
+			}
+		}
+	}
 	// (d) mutual exclusivity orders
 	{
 		slots := c.Pick(4, 5)
@@ -829,6 +871,8 @@ func replay(c *core.Ctx, p map[string]interface{}) (bool, string) {
 			v.edit(x, d, num("nmut"))
 			return 0
 		})
+	case "argument-pairs":
+		d = argPairDoc(num("a"), num("b"), num("shape"))
 	case "literals":
 		d = litDoc(gArgs(s)[num("arg")].Name, gen.ParseValue(literalMenu[num("lit")]))
 	case "variables":
